@@ -437,4 +437,14 @@ def guard_table(repo: Repo) -> RuleRun:
 
 guard_table.rule_id = "C20.GUARD-TABLE"
 
-RULES = [one_sided_tol, one_sided_range, guard_eval, guard_table]
+def lifecycle_state(repo: Repo) -> RuleRun:
+    """'not assembled' is again true after clear(): whatever assemble() records on the mesh, clear() resets, so grade()/backport() on a cleared mesh are refused. Same rule as C12.CLEAR-COMPLETE."""
+    from ..report import rebrand
+    from . import c12
+
+    return rebrand(c12.clear_complete(repo), PROP, "C20.LIFECYCLE-STATE")
+
+
+lifecycle_state.rule_id = "C20.LIFECYCLE-STATE"
+
+RULES = [one_sided_tol, one_sided_range, guard_eval, guard_table, lifecycle_state]
